@@ -12,6 +12,7 @@ package main
 
 import (
 	"bufio"
+	"bytes"
 	"crypto/sha256"
 	"encoding/hex"
 	"encoding/json"
@@ -1955,6 +1956,52 @@ func search(r *hx.Rng, thorough bool, hintLines []string) searchOut {
 		if prior != "" && len(so.Violations) > n0 {
 			so.Violations[len(so.Violations)-1].Replay["prior"] = prior
 			so.Violations[len(so.Violations)-1].Replay["how"] = "harness/bin/c13 mode=exec prior='<prior>' op='<op>'  (same process, in this order)"
+		}
+	}
+	// a member's signing key survives its hex export (the form in which a node keeps `signSecKey`
+	// across a restart): a reloaded member must produce the same share, or the subsets containing it
+	// recover a different group signature than the others (seeded regression C13-k: odd-length hex)
+	{
+		kr := r.Fork()
+		var ks []*big.Int
+		for _, n := range []int{1, 2, 7, 8, 15, 16, 31, 32} {
+			b := kr.Bytes(n)
+			b[0] &= 0x0f // top hex digit zero: the export has an odd number of digits
+			if b[0] == 0 {
+				b[0] = 0x07
+			}
+			ks = append(ks, new(big.Int).SetBytes(b), new(big.Int).SetBytes(kr.Bytes(n)))
+		}
+		ks = append(ks, big.NewInt(1), big.NewInt(15), big.NewInt(16), big.NewInt(255), big.NewInt(256), big.NewInt(4095))
+		for i := 0; i < 24; i++ {
+			ks = append(ks, new(big.Int).Mod(new(big.Int).SetBytes(kr.Bytes(32)), bn.Order))
+		}
+		msg := []byte("c13 key reload")
+		for _, k := range ks {
+			if k.Sign() == 0 || k.Cmp(bn.Order) >= 0 {
+				continue
+			}
+			sk := secOf(k)
+			line := "keyhex " + natTok(k)
+			res := hx.Guard(func() string {
+				var back groupsig.Seckey
+				if err := back.SetHexString(sk.GetHexString()); err != nil {
+					return "export " + sk.GetHexString() + " is refused on reload: " + err.Error()
+				}
+				if !back.IsEqual(sk) {
+					return "export " + sk.GetHexString() + " reloads as " + back.GetHexString()
+				}
+				s1, s2 := groupsig.Sign(sk, msg), groupsig.Sign(back, msg)
+				if !bytes.Equal(s1.Serialize(), s2.Serialize()) {
+					return "the reloaded key signs differently"
+				}
+				return ""
+			})
+			so.Evaluations++
+			if res != "" {
+				addV("member-key-reload", "a member signing key does not survive GetHexString/SetHexString: "+res, line)
+				break
+			}
 		}
 	}
 	hangs := 0
